@@ -3,8 +3,8 @@
  * _unregister / _get_by_desc (and liberasurecode_backend_alloc_desc underneath) are the real code.
  * The descriptor counter starts at a fully symbolic value (covers the wrap past INT_MAX and
  * negative values).  -DDEPTH=n steps over SLOTS slots.
- * -DINDUCTIVE: one step from an ARBITRARY well-formed registry (any subset of the slots live, in
- * any list order, with arbitrary distinct positive descriptors): the inductive step that
+ * -DINDUCTIVE -DORD=..: one step from an ARBITRARY well-formed registry (the driver enumerates every
+ * subset of the slots in every list order; descriptors arbitrary distinct positive, counter arbitrary): the inductive step that
  * extends the claim beyond DEPTH. */
 #include "vh.h"
 #include "erasurecode.h"
@@ -13,7 +13,9 @@
 #ifndef DEPTH
 #define DEPTH 5
 #endif
-#define SLOTS 4
+#ifndef SLOTS
+#define SLOTS 3
+#endif
 extern int next_backend_desc;
 int liberasurecode_backend_alloc_desc(void);
 /* the registry head lives in erasurecode.c */
@@ -46,9 +48,23 @@ static void check_state(void)
             if (live[i] && live[j]) CHECK(dsc[i] != dsc[j], "two live instances share a descriptor");
 }
 
+static void step_on(int op, int s);
 static void step(void)
 {
     int op = vin_range(0, 2), s = vin_range(0, SLOTS - 1);
+    /* dispatch on a concrete slot so that the instance pointer is a constant in every branch */
+    if (s == 0) step_on(op, 0);
+    else if (s == 1) step_on(op, 1);
+#if SLOTS > 3
+    else if (s == 2) step_on(op, 2);
+    else step_on(op, 3);
+#else
+    else step_on(op, 2);
+#endif
+    check_state();
+}
+static void step_on(int op, int s)
+{
     if (op == 0 && !live[s]) {
         int d = liberasurecode_backend_instance_register(&inst[s]);
         CHECK(d > 0, "register returns a positive descriptor");
@@ -67,7 +83,6 @@ static void step(void)
         for (int i = 0; i < SLOTS; i++) if (live[i] && dsc[i] == q) e = &inst[i];
         CHECK(r == e, "lookup differs from the set model (dead descriptor found or live one missed)");
     }
-    check_state();
 }
 
 int main(void)
@@ -77,16 +92,13 @@ int main(void)
     ASSUME(next_backend_desc < INT_MAX - DEPTH - SLOTS);   /* the signed wrap at INT_MAX is a listed finding / fixed */
 #endif
 #ifdef INDUCTIVE
-    /* arbitrary well-formed registry */
-    int order[SLOTS];
-    for (int i = 0; i < SLOTS; i++) { order[i] = vin_range(0, SLOTS - 1); live[i] = 0; }
-    int n = vin_range(0, SLOTS);
+    /* arbitrary well-formed registry: the list order (which slots are live, in which order) is
+     * enumerated by the driver (-DORD=a,b,..), descriptors and the counter are symbolic */
+    static const int order[] = { ORD -1 };
     struct ec_backend *prev = NULL;
     SLIST_INIT(&active_instances);
-    for (int i = 0; i < SLOTS; i++) {
-        if (i >= n) continue;
+    for (unsigned i = 0; i < sizeof order / sizeof order[0] && order[i] >= 0; i++) {
         int s = order[i];
-        ASSUME(!live[s]);
         live[s] = 1;
         dsc[s] = vin_int();
         ASSUME(dsc[s] > 0);
